@@ -71,3 +71,49 @@ package bbolt
 //@   ensures [errclean] err != nil ==> db.rwtx.meta.pgid == old(db.rwtx.meta.pgid)
 //@   ensures [page] err == nil ==> p != nil && p.overflow == count - 1 && (p.id >= 2 || p.id == old(db.rwtx.meta.pgid))
 //@   ensures [fresh] err == nil && db.rwtx.meta.pgid != old(db.rwtx.meta.pgid) ==> p.id == old(db.rwtx.meta.pgid)
+
+// ---------------------------------------------------------------- C11: meta selection and page-size probing
+
+//@ ghost var lastpage int      -- the page most recently decoded from a read buffer (pageInBuffer)
+
+//@ func (*DB).pageInBuffer
+//@   trusted
+//@   ensures result != nil && lastpage == result
+//@   modifies lastpage
+
+//@ func (*DB).meta
+//@   props C11 C01 C06 C03
+//@   requires db.meta0 != nil && db.meta1 != nil
+//@   panics when !metavalid(db.meta0) && !metavalid(db.meta1)
+//@   ensures [one] result == db.meta0 || result == db.meta1
+//@   ensures [valid] metavalid(result)
+//@   ensures [newest] metavalid(db.meta0) && metavalid(db.meta1) ==> result.txid >= db.meta0.txid && result.txid >= db.meta1.txid
+//@   ensures [fallback0] !metavalid(db.meta1) ==> result == db.meta0
+//@   ensures [fallback1] !metavalid(db.meta0) ==> result == db.meta1
+//@   modifies nothing
+
+//@ func (*DB).getPageSizeFromFirstMeta
+//@   returns (sz, canRead, err)
+//@   props C11
+//@   ensures [valid] err == nil ==> metavalid(metaof(lastpage)) && sz == metaof(lastpage).pageSize && lastreadoff == 0 && canRead
+//@   ensures [invalid] err != nil ==> err == berrors.ErrInvalid && sz == 0
+//@   ensures [probe] nreads == old(nreads) + 1 && lastreadoff == 0
+//@   ensures [accept] canRead && metavalid(metaof(lastpage)) ==> err == nil
+//@   modifies nreads, lastreadoff, lastpage
+
+//@ func (*DB).getPageSizeFromSecondMeta
+//@   returns (sz, canRead, err)
+//@   props C11
+//@   ensures [valid] err == nil ==> metavalid(metaof(lastpage)) && sz == metaof(lastpage).pageSize && canRead
+//@   ensures [probes] err == berrors.ErrInvalid && flen > 16778240 && nreads > old(nreads) ==> nreads == old(nreads) + 15
+//@   ensures [noreadnocan] nreads == old(nreads) ==> !canRead
+//@   modifies nreads, lastreadoff, lastpage
+//@   loop 0 invariant 0 <= i && i <= 15 && nreads == old(nreads) + i && fileSize == flen
+//@   loop 0 invariant nreads == old(nreads) ==> !metaCanRead
+
+//@ func (*DB).getPageSize
+//@   returns (sz, err)
+//@   props C11
+//@   ensures [invalid] err != nil ==> err == berrors.ErrInvalid && sz == 0
+//@   ensures [frommeta] err == nil ==> sz == db.pageSize || (metavalid(metaof(lastpage)) && sz == metaof(lastpage).pageSize)
+//@   modifies nreads, lastreadoff, lastpage
